@@ -30,7 +30,8 @@ VARIABLES
   level,       \* compression level given to the constructor
   window,      \* 4096 | 32768
   accel,       \* setting handled by fastgo's own compressors (levels -2,-1,1,2, no dictionary)
-  period,      \* > 0: the data is periodic with this period (C20), 0 otherwise
+  period,      \* 1..64: the data is periodic with this period (C20); 1001..1064: periodic with period
+               \* (period - 1000), the period spelled with two or three distinct byte values; 0 otherwise
   acc,         \* bytes accepted by Write since construction / Reset
   dec,         \* bytes the emitted prefix decodes to
   tail,        \* how the emitted prefix ends: "empty" | "mid" | "sync" | "final"
@@ -140,6 +141,12 @@ Failed(e) ==
              emitted + e.bytes <= acc + acc \div 32 + 256)
   \cup Chk("C20.repeats",       (ph = "open" /\ e.ev = "Close" /\ kind = "flate" /\ accel /\ flushes = 0
                                  /\ period \in 1..64 /\ acc >= 65536 /\ level \in {-1, 1, 2}) =>
+             emitted + e.bytes <= acc \div 32 + 1200)
+  \* the same bound for periods over two or three byte values (a clause of its own: the match finder
+  \* keeps one candidate per hash, and with so few distinct four-byte strings that candidate is a
+  \* near repetition inside the period, not the period itself - known finding F-C20a)
+  \cup Chk("C20.repeats_low_entropy", (ph = "open" /\ e.ev = "Close" /\ kind = "flate" /\ accel /\ flushes = 0
+                                 /\ period \in 1001..1064 /\ acc >= 65536 /\ level \in {-1, 1, 2}) =>
              emitted + e.bytes <= acc \div 32 + 1200)
   \* C14, converse: every call returned nil, so the destination holds a complete valid stream of all the data
   \cup Chk("C14.converse",      (ph = "open" /\ e.ev = "Close" /\ e.err = "nil") =>
